@@ -21,6 +21,7 @@ RULE = (
     "big integers with 0..key_length leading zero bytes, SD lengths 0..64 covering every residue mod 8, reply envelope lengths covering "
     "every residue mod 8). distinct = digest of the encoding; non-trivial = differs from the handful of literal structures in tests/test_gkdi.py "
     "(any generated value with a random component)"
+    " Also: names with byte-order marks and other special code points; mutable objects re-encoded after their fields were re-assigned."
 )
 ASSUMPTIONS = ["ref.gkdi transcribes MS-GKDI 2.2.1-2.2.4, 3.1.4.1 and NDR64 (calibrated on Windows-captured structures and GetKey bytes)"]
 
